@@ -62,8 +62,9 @@ let bits_of_sexp_string (s : string) : bool list =
 
 let field_of (e : sexp) : M.field =
   match e with
-  | L [A "f"; t; A ss; A sd; A w; A na] ->
-    { M.f_ty = ty_of_sexp t; M.f_skip_ser = (ss = "1"); M.f_skip_de = (sd = "1"); M.f_with = (w = "1");
+  | L [A "f"; t; A ss; A sd; w; A na] ->
+    { M.f_ty = ty_of_sexp t; M.f_skip_ser = (ss = "1"); M.f_skip_de = (sd = "1");
+      M.f_with = (match w with A "0" -> None | w -> Some (ty_of_sexp w));
       M.f_nattrs = nat_of_int (int_of_string na) }
   | _ -> failwith "bad field"
 let defn_of (s : string) : M.defn =
